@@ -280,7 +280,9 @@ pub fn gen_mapset(r: &mut Rng, cfg: &GenCfg) -> MapSet {
     for k in &keys {
         let names: Names = if cfg.enigma {
             // target name follows the nesting: <target of outer or outer src>$<simple>
-            let simple_t = if r.chance(75) { Some(gen_ident(r, cfg.unicode)) } else { None };
+            // inner classes in different outer classes often share their simple target name (Builder, Entry ...): a
+            // look-up keyed by the simple name alone confuses them (missed seeded change C05-9)
+            let simple_t = if r.chance(75) { Some(if k.contains('$') && r.chance(40) { r.pick(&["Builder", "Entry", "Itr", "Node"]).to_string() } else { gen_ident(r, cfg.unicode) }) } else { None };
             match k.rsplit_once('$') {
                 Some((outer, _simple)) => {
                     let outer_t = m.classes.get(outer).map(|oc: &ClassM| oc.names[0].clone().unwrap_or_else(|| outer.to_string()));
